@@ -127,6 +127,16 @@ class Builder:
                 return self.p.Variable("_nocls_" + str(t[1]))
             args = [self.build(x, fresh) for x in t[2]]
             return cls(*args)
+        if k == "wide":
+            # ["wide", cls, k, shared]: cls((S, t_1 .. t_k, S')) with k distinct operands between
+            # two equal-but-not-identical builds of the shared term: more distinct keys than any
+            # plausible cache bound, then a key from the very beginning again
+            cls = self.classes[t[1]]
+            s1 = self.build(t[3], fresh)
+            s2 = self.build(t[3], True)
+            x = self.p.Variable("x")
+            mid = tuple(self.p.Product((i + 2, x)) for i in range(int(t[2])))
+            return cls((s1, *mid, s2))
         if k == "let":
             saved = dict(self.defs)
             try:
@@ -173,7 +183,7 @@ def subterms(t):
 
 
 def is_expr_term(t):
-    return t[0] in ("n", "r", "fresh", "let")
+    return t[0] in ("n", "r", "fresh", "let", "wide")
 
 
 # {{{ generator
